@@ -35,7 +35,11 @@ def main():
         meta["files_changed"] = sh(f"git -C {scratch} diff --stat -- src").stdout.strip().splitlines()
         b = sh(["/venv/bin/python", demo], env=env, cwd=scratch, timeout=900)
         meta["ran"].append({"cmd": "demo.py with patch", "exit": b.returncode, "tail": (b.stdout + b.stderr)[-300:]})
-        ok = a.returncode == 0 and b.returncode != 0
+        preserving = "--preserving" in rest
+        ok = a.returncode == 0 and ((b.returncode == 0) if preserving else (b.returncode != 0))
+        if preserving:
+            meta["expect"] = "pass"
+            meta["source"] = "independent sub-agent asked for a behaviour-PRESERVING refactor (the property still holds): every check must stay quiet"
         if "--skip-suite" not in rest:
             base = json.load(open("/root/.vp/BASELINE.json"))
             out = os.path.join(tempfile.gettempdir(), f"sv-{sid}.xml")
